@@ -183,7 +183,7 @@ def lexer_obls(T, ctx, tag=""):
         ref_name = "BLOCK_OPEN" if name == opener else name
         if ref_name not in FP:
             out.append(Obl("lex:main%s/" % tag + "%s.documented" % name, fn_main, "regex", "token type %s is in the documented table" % name,
-                           status=REFUTED, backend="table", detail="not documented", props=("C06",), model={"witness": al.word(w or [])}))
+                           status=REFUTED, backend="table", detail="not documented", props=allp, model={"witness": al.word(w or [])}, replay=lex_replay))
             continue
         tg = ("C08",) if name == opener else tags_for(name)
         out.append(emptiness_obl("lex:main%s/" % tag + "%s.real⊆ref" % name, fn_main,
@@ -197,7 +197,7 @@ def lexer_obls(T, ctx, tag=""):
             continue
         if tname not in RP.pick:
             out.append(Obl("lex:main%s/" % tag + "%s.implemented" % tname, fn_main, "regex", "documented token %s has a rule" % tname, status=REFUTED,
-                           backend="table", detail="no rule of that name", props=tags_for(tname), model={"witness": al.word(FP[tname].witness() or [])}, replay=lex_replay))
+                           backend="table", detail="no rule of that name", props=tuple(sorted(set(tags_for(tname)) | {"C08", "C06"})), model={"witness": al.word(FP[tname].witness() or [])}, replay=lex_replay))
     # trivia coverage: every text the documented scanner starts with trivia on is handled by an ignored rule
     out.append(emptiness_obl("lex:main%s/" % tag + "whitespace.covered", fn_main, "a text starting with whitespace is consumed by an ignored whitespace rule",
                              erase_marker(FP["WS"], al) - erase_marker(ign_ws, al), al, ("C08", "C06"), replay=lex_replay))
